@@ -46,7 +46,7 @@ type Case struct {
 	Ops   []Op   `json:"ops"`
 }
 
-var chans = []string{"a/", "a/b/", "c/", "a/", "a/b/", "a/"}
+var chans = []string{"a/", "a/b/", "c/", "a/", "a/b/", "a/", "x/y/", "y/x/"} // x/y/ and y/x/: ssids with equal XOR hash (per-peer counters)
 
 func genCase(class string) func(t *rapid.T) Case {
 	return func(t *rapid.T) Case {
@@ -254,7 +254,7 @@ func run(c Case) (res vkit.Result) {
 	checkRoutes := func(step int, why string) string {
 		net.Quiesce()
 		for j := range brokers {
-			for _, ch := range []string{"a/", "a/b/", "c/", "a/b/x/"} {
+			for _, ch := range []string{"a/", "a/b/", "c/", "a/b/x/", "x/y/", "y/x/"} {
 				if g, w := gotRemote(j, ch), wantRemote(j, ch); fmt.Sprint(g) != fmt.Sprint(w) {
 					return fmt.Sprintf("step %d (%s): after gossip quiesced broker %d forwards %q to peers %v; the brokers with a live local subscriber are %v", step, why, j, ch, g, w)
 				}
@@ -341,7 +341,7 @@ func run(c Case) (res vkit.Result) {
 			labels["peer-offline"] = true
 			// strict: no route to the dead peer is left anywhere, and it has none to the others
 			for y := range brokers {
-				for _, ch := range []string{"a/", "a/b/", "c/"} {
+				for _, ch := range []string{"a/", "a/b/", "c/", "x/y/", "y/x/"} {
 					for _, pr := range [][2]int{{y, x}, {x, y}} {
 						if pr[0] == pr[1] {
 							continue
